@@ -9,9 +9,10 @@
 (* keeps a small set of behaviour prefixes that covers every signature seen *)
 (* and the harness replays them on the real collections in every check.     *)
 (***************************************************************************)
-EXTENDS HbMapOps, TLCExt, SequencesExt, Json
+EXTENDS HbTableOps, TLCExt, SequencesExt, Json
 
-CONSTANTS NK, PlanId, Depth, Es, OpNames
+CONSTANTS NK, PlanId, Depth, Es, OpNames,
+          Kind       \* "map", "set" or "table": which collection's composition rules are walked
 
 Keys == 0..(NK - 1)
 VARIABLES t, hist
@@ -61,14 +62,24 @@ Sig(e, t0, t1) ==
 Ev(op, k, v, n, ks, r) ==
   [op |-> op, t |-> 1, u |-> 0, k |-> k, id |-> 1, v |-> v, vid |-> 0, n |-> n, j |-> -1, ks |-> ks, r |-> r, y |-> <<>>, pn |-> ""]
 
+HQ(e) == IF e.k >= 0 THEN hp[e.k] ELSE [pos |-> 0, tag |-> 0]
+KOp(e, tt) == CASE Kind = "set" -> SetOp(e, tt, tt, hp, LawfulEnv)
+                [] Kind = "table" -> TableOp(e, tt, HQ(e), LawfulEnv)
+                [] OTHER -> MapOp(e, tt, hp, LawfulEnv)
+InsOp == IF Kind = "table" THEN "t_insert_unique" ELSE "insert"
+RemOp == IF Kind = "table" THEN "t_remove" ELSE "remove"
+
 Step(e) ==
-  LET c == MapOp(e, t, hp, LawfulEnv)
+  LET c == KOp(e, t)
   IN /\ Len(hist) < Depth
      /\ t' = c.t
      /\ hist' = Append(hist, [op |-> e.op, k |-> e.k, v |-> e.v, n |-> e.n, j |-> e.j, ks |-> e.ks, sig |-> ToString(Sig(e, t, c.t))])
 
 KeyOps == OpNames \cap {"insert", "remove", "get", "e_or_insert", "rc_or_insert", "e_remove", "e_replace_none", "e_replace_some",
-                        "re_from_key_or_insert", "try_insert", "rc_remove", "rc_vacant_drop", "e_insert", "re_insert_hashed_nocheck"}
+                        "re_from_key_or_insert", "try_insert", "rc_remove", "rc_vacant_drop", "e_insert", "re_insert_hashed_nocheck",
+                        "replace", "take", "get_or_insert", "s_entry_insert", "s_entry_remove",
+                        "t_insert_unique", "t_remove", "t_remove_reinsert", "t_entry_or_insert", "t_entry_insert", "t_entry_drop", "t_find",
+                        "t_iter_hash"}
 Subsets == {{k \in Keys : k % 2 = 0}, {k \in Keys : k % 3 # 0}, {k \in Keys : k < NK \div 2}, {}}
 
 \* macro steps: a whole sequence of calls in one simulation step, so that deep states (exactly full load,
@@ -77,7 +88,7 @@ RECURSIVE RunSeq(_, _, _)
 RunSeq(tt, es, acc) ==
   IF es = <<>> THEN [t |-> tt, h |-> acc]
   ELSE LET e == Head(es)
-           c == MapOp(e, tt, hp, LawfulEnv)
+           c == KOp(e, tt)
        IN RunSeq(c.t, Tail(es), Append(acc, [op |-> e.op, k |-> e.k, v |-> e.v, n |-> e.n, j |-> e.j, ks |-> e.ks,
                                                 sig |-> ToString(Sig(e, tt, c.t))]))
 Macro(es) ==
@@ -86,15 +97,16 @@ Macro(es) ==
      /\ Len(hist) < Depth
      /\ t' = r.t
      /\ hist' = hist \o r.h
-SeqOfSet(S, op) == LET s == SetToSortSeq(S, <) IN [i \in 1..Len(s) |-> Ev(op, s[i], 1, 0, <<>>, <<>>)]
+SeqOfSet(S, op) == LET s == SetToSortSeq(S, <) IN [i \in 1..Len(s) |-> Ev(op, s[i], IF Kind = "set" THEN 0 ELSE 1, 0, <<>>, <<>>)]
 Absent == {k \in Keys : Find(t, k, hp[k]) = -1}
 Present == Keys \ Absent
 
 Next ==
-  \/ \E op \in KeyOps, k \in Keys : Step(Ev(op, k, 1 + (k % 3), 0, <<>>, <<>>))
+  \/ \E op \in KeyOps, k \in Keys : Step(Ev(op, k, IF Kind = "set" THEN 0 ELSE 1 + (k % 3), 0, <<>>, <<>>))
+  \/ /\ "t_shrink_to_fit" \in OpNames /\ Step(Ev("t_shrink_to_fit", -1, 0, 0, <<>>, <<>>))
   \* inserts and removes get extra weight (simulation picks uniformly among successors)
-  \/ \E k \in Keys, w \in 1..3 : Step(Ev("insert", k, w, 0, <<>>, <<>>))
-  \/ \E k \in Keys, w \in 1..2 : Step(Ev("remove", k, w, 0, <<>>, <<>>))
+  \/ \E k \in Keys, w \in 1..3 : Step(Ev(InsOp, k, IF Kind = "set" THEN 0 ELSE w, 0, <<>>, <<>>))
+  \/ \E k \in Keys, w \in 1..2 : Step(Ev(RemOp, k, 0, 0, <<>>, <<>>))
   \/ /\ "reserve" \in OpNames /\ \E n \in {1, 3, NK \div 2, NK} : Step(Ev("reserve", -1, 0, n, <<>>, <<>>))
   \/ /\ "shrink_to" \in OpNames /\ \E n \in {0, 2, NK \div 2} : Step(Ev("shrink_to", -1, 0, n, <<>>, <<>>))
   \/ /\ "shrink_to_fit" \in OpNames /\ Step(Ev("shrink_to_fit", -1, 0, 0, <<>>, <<>>))
@@ -102,18 +114,18 @@ Next ==
   \/ /\ "retain" \in OpNames /\ \E K \in Subsets : Step(Ev("retain", -1, 0, 0, SetToSeq(K), <<>>))
   \/ /\ "drain" \in OpNames /\ t.items > 0 /\ Step(Ev("drain", -1, 0, 0, <<>>, <<>>))
   \* macros (weighted by repetition)
-  \/ \E w \in 1..3 : Absent # {} /\ Macro(SeqOfSet(Absent, "insert"))                      \* fill up
+  \/ \E w \in 1..3 : Absent # {} /\ Macro(SeqOfSet(Absent, InsOp))                      \* fill up
   \/ \E m \in {2, NK \div 4, NK \div 3, NK \div 2} :
-        /\ {k \in Present : k >= m} # {} /\ Macro(SeqOfSet({k \in Present : k >= m}, "remove"))          \* remove the tail
-  \/ \E w \in 1..2 : {k \in Present : k % 2 = 1} # {} /\ Macro(SeqOfSet({k \in Present : k % 2 = 1}, "remove"))
+        /\ {k \in Present : k >= m} # {} /\ Macro(SeqOfSet({k \in Present : k >= m}, RemOp))          \* remove the tail
+  \/ \E w \in 1..2 : {k \in Present : k % 2 = 1} # {} /\ Macro(SeqOfSet({k \in Present : k % 2 = 1}, RemOp))
   \/ \E m \in {NK \div 3, NK \div 2} :
-        /\ {k \in Present : k < m} # {} /\ Macro(SeqOfSet({k \in Present : k < m}, "remove"))           \* remove the head
+        /\ {k \in Present : k < m} # {} /\ Macro(SeqOfSet({k \in Present : k < m}, RemOp))           \* remove the head
 
 Spec == Init /\ [][Next]_vars
 
 \* one line per finished behaviour
 Emit == (Len(hist) >= Depth) =>
-          PrintT("GENBEH " \o ToJson([kind |-> "map", plan |-> [k \in 1..NK |-> <<hp[k - 1].pos, hp[k - 1].tag>>], ops |-> hist]))
+          PrintT("GENBEH " \o ToJson([kind |-> Kind, plan |-> [k \in 1..NK |-> <<hp[k - 1].pos, hp[k - 1].tag>>], ops |-> hist]))
 \* the specification's own invariant holds along every generated behaviour
-Inv == InvMap(t, TRUE)
+Inv == IF Kind = "table" THEN InvTable(t, TRUE) ELSE InvMap(t, TRUE)
 =============================================================================
